@@ -22,7 +22,7 @@ SPEC = {
     "assumptions": ["vlib/prims.py operator semantics (shared by both sides, so an error there cancels out)",
                     "vlib/refeval.py reading of the documented source semantics", "vlib/avm.py control/stack/scratch/frame semantics"],
     "min_evaluations": {"quick": 8000, "thorough": 100000},
-    "must_reach": ["agree_approve", "agree_reject", "agree_fail", "mode_sig", "mode_app", "skeleton_cases", "first_statement_cases", "multivalue_ok", "optimised_agree", "optimised_accesses_deleted", "loops_iterated_2plus", "object_compiled_twice"],
+    "must_reach": ["agree_approve", "agree_reject", "agree_fail", "mode_sig", "mode_app", "skeleton_cases", "first_statement_cases", "multivalue_ok", "optimised_agree", "optimised_accesses_deleted", "str_literals_assembled", "loops_iterated_2plus", "object_compiled_twice"],
     "shard_timeout": {"quick": 2400, "thorough": 14400},
 }
 
@@ -135,7 +135,16 @@ def check_recipe(acc, recipe, versions, ctxs, origin, check_san=True):
         if (int(key, 16) + vi) % 3 == 0:
             first = [2, 5, 6, 8, 10][(int(key, 16) >> 8) % 5]
             acc.counters["object_compiled_twice"] += 1
-        c = rcase.compile_recipe(recipe, v, recipe["mode"], scratch_slots=False, first_version=first)
+        # every fourth compilation writes printable byte constants as str literals and assembles the constants into blocks
+        as_text = (int(key, 16) + vi) % 4 == 1 and v >= 3
+        from .. import build as _build
+        _build.STR_LITERALS[0] = as_text
+        try:
+            c = rcase.compile_recipe(recipe, v, recipe["mode"], scratch_slots=False, first_version=first, assemble_constants=as_text)
+        finally:
+            _build.STR_LITERALS[0] = False
+        if as_text:
+            acc.counters["str_literals_assembled"] += 1
         if c.prog is None:
             if c.pt_error:
                 acc.counters["compile_rejected:" + c.errtype] += 1
